@@ -63,10 +63,16 @@ func runNewBig(v *big.Int, e int32) string {
 		b.SetMathBigInt(v)
 		before := b.String()
 		d := apd.NewWithBigInt(&b, e)
+		res := encDec(d)
+		// the new Decimal must not share storage with the caller's BigInt: write into it and look again
+		c := apd.BaseContext.WithPrecision(200)
+		c.Add(d, d, apd.New(1, 0))
+		c.Mul(d, d, apd.New(3, 0))
+		d.Coeff.SetInt64(7)
 		if b.String() != before {
-			return "PANIC operand-modified"
+			return "MOD"
 		}
-		return encDec(d)
+		return res
 	})
 }
 
